@@ -47,7 +47,7 @@ def vary(lf, v, rng, k, cfg=None):
             if choice == 0:
                 return ('str', "")
             if choice == 1:
-                return ('str', "not-a-" + under.strip("$") + "-" + str(rng.randint(0, 10 ** 9)))
+                return ('str', rng.choice(["not-a-" + under.strip("$") + "-" + str(rng.randint(0, 10 ** 9)), "who%d@mail.example" % rng.randint(0, 999), "10.0.0.%d" % rng.randint(1, 250)]))
             if choice == 2 and under == "$oid":
                 return ('str', "%023x" % rng.getrandbits(90))
             if choice == 3 and under == "$date":
